@@ -13,6 +13,7 @@ import (
 	"errors"
 	"fmt"
 	"net"
+	"reflect"
 	"sync"
 	"time"
 
@@ -174,6 +175,17 @@ func verifPackerToken(p packer) []byte {
 	return nil
 }
 
+// verifBoolField reads an unexported bool field of *Conn that the harness only observes, by name,
+// so that a refactoring of the bookkeeping (field removed / renamed) does not break the harness
+// build; def is what is reported if the field does not exist.
+func verifBoolField(c *Conn, name string, def bool) bool {
+	f := reflect.ValueOf(c).Elem().FieldByName(name)
+	if !f.IsValid() || f.Kind() != reflect.Bool {
+		return def
+	}
+	return f.Bool()
+}
+
 func (v *VerifCA) State() VerifCAState { return VerifConnAcceptState(v.c) }
 
 // VerifConnAcceptState reads the pre-authentication decision state of a connection.
@@ -183,9 +195,10 @@ func VerifConnAcceptState(c *Conn) VerifCAState {
 	s := VerifCAState{
 		Client:   c.perspective == protocol.PerspectiveClient,
 		Version:  uint32(c.version),
-		RcvFirst: c.receivedFirstPacket,
-		RcvRetry: c.receivedRetry,
-		VerNeg:   c.versionNegotiated,
+		RcvFirst: verifBoolField(c, "receivedFirstPacket", false),
+		// "a Retry was accepted": the bookkeeping flag if the struct has one, else what the code acts on
+		RcvRetry: verifBoolField(c, "receivedRetry", c.retrySrcConnID != nil),
+		VerNeg:   verifBoolField(c, "versionNegotiated", false),
 		HsDCID:   append([]byte{}, c.handshakeDestConnID.Bytes()...),
 		OrigDCID: append([]byte{}, c.origDestConnID.Bytes()...),
 		Token:    append([]byte{}, verifPackerToken(c.packer)...),
@@ -490,4 +503,12 @@ func VerifTransportHandlers(t *Transport) int {
 	t.mutex.Lock()
 	defer t.mutex.Unlock()
 	return len(t.handlers)
+}
+
+// VerifSetInitialDCIDLen makes clients choose original destination connection IDs of a fixed length
+// (through the package's own mocking variable); the returned function restores the random length.
+func VerifSetInitialDCIDLen(n int) (restore func()) {
+	orig := generateConnectionIDForInitial
+	generateConnectionIDForInitial = func() (protocol.ConnectionID, error) { return protocol.GenerateConnectionID(n) }
+	return func() { generateConnectionIDForInitial = orig }
 }
